@@ -169,8 +169,54 @@ pub fn law(a: &[u8], sep: &[u8], b: &[u8], rep: &mut Reporter, case_idx: u64) {
     }
 }
 
+/// A well-formed line whose numbers are replaced by boundary values and huge digit
+/// runs, cut off at an arbitrary byte (often right behind a number or in front of the arrow).
+fn truncated_line(rng: &mut Rng) -> Vec<u8> {
+    fn num(rng: &mut Rng) -> String {
+        match rng.below(10) {
+            0 => "0".into(),
+            1 => "4294967295".into(),
+            2 => "4294967296".into(),
+            3 => "18446744073709551615".into(),
+            4 => "18446744073709551616".into(),
+            5 => "9".repeat(26),
+            6 => "1".repeat(40 + rng.below(40)),
+            7 => "-1".into(),
+            8 => String::new(),
+            _ => (1 + rng.below(200)).to_string(),
+        }
+    }
+    let (a, b, c, d) = (num(rng), num(rng), num(rng), num(rng));
+    let line = match rng.below(8) {
+        0 => format!("    {a}:{b}:void com.a.B.run(int,java.lang.String):{c}:{d} -> a"),
+        1 => format!("    {a}:{b}:void run():{c} -> a"),
+        2 => format!("    void run():{c}:{d} -> a"),
+        3 => format!("    {a}:{b}:int[] run(long) -> a"),
+        4 => "com.example.Foo -> a.b:".to_string(),
+        5 => "    int field -> f".to_string(),
+        6 => "# {\"id\":\"sourceFile\",\"fileName\":\"Foo.kt\"}".to_string(),
+        _ => format!("    {a}:{b}:void run():{c}:{d}"),
+    };
+    let cut = match rng.below(4) {
+        0 => line.len(),
+        1 => line.find(" -> ").unwrap_or(line.len()),
+        2 => line.rfind(|ch: char| ch.is_ascii_digit()).map_or(line.len(), |i| i + 1),
+        _ => rng.below(line.len() + 1),
+    };
+    line.as_bytes()[..cut].to_vec()
+}
+
 fn hostile_piece(rng: &mut Rng) -> Vec<u8> {
-    match rng.below(13) {
+    match rng.below(16) {
+        13 | 14 | 15 => {
+            let mut v = truncated_line(rng);
+            // now and then further lines follow inside the same piece
+            if rng.chance(1, 3) {
+                v.extend_from_slice(*rng.pick(&[b"\n".as_slice(), b"\r\n", b"\r"]));
+                v.extend_from_slice(&truncated_line(rng));
+            }
+            v
+        }
         0 => random_bytes(rng, 40),
         1 | 2 => token_soup(rng, 14),
         3 => {
